@@ -1,4 +1,4 @@
-import QuantemModel.Lemmas.Batcher
+import QuantemModel.Lemmas.BatcherRecon
 /-!
 C09 — mini-batch scheduling (Model/Batcher.lean): the train/validation split is a partition of
 all patterns, every epoch visits every training pattern exactly once, the reported number of
@@ -272,5 +272,136 @@ theorem epochLoss_nondivisor_counterexample :
   norm_num
 
 example : (2 : Nat) ∣ [3, 1, 0, 2].length ∧ [3, 1, 0, 2] ≠ [] := by decide
+
+/-! ### 5. user supplied indices -/
+
+/-- `SimpleBatcher(train_indices=t, val_indices=v)`: the lists are taken as given (no RNG draw);
+supplying only one raises `ValueError`.  If the user's lists are a partition of `0 … n-1` every
+clause of the schedule property holds for them as well: no repeats, disjoint, and every epoch
+(any `b ≥ 1`, any shuffle) visits exactly the non-validation indices once each. -/
+theorem user_indices_schedule (n : Nat) (ratio : Float) (mode : Mode) (perm t v : List Nat)
+    (hpart : (t ++ v).Perm (List.range n)) (b : Nat) (hb : 0 < b) (order : List Nat) (horder : order.Perm t) :
+    initSplit n ratio mode perm (some t) (some v) = .ok { train := t, val := v } ∧
+    initSplit n ratio mode perm (some t) none = .error .valueError ∧
+    initSplit n ratio mode perm none (some v) = .error .valueError ∧
+    initSplit n ratio mode perm none none = .ok (split n ratio mode perm) ∧
+    t.Nodup ∧ v.Nodup ∧ (∀ x ∈ t, x ∉ v) ∧
+    (∀ i, (epoch b order).flatten.count i = if i < n ∧ i ∉ v then 1 else 0) := by
+  have hnd : (t ++ v).Nodup := hpart.symm.nodup List.nodup_range
+  rw [List.nodup_append] at hnd
+  refine ⟨rfl, rfl, rfl, rfl, hnd.1, hnd.2.1, fun x hx hx' => hnd.2.2 x hx x hx' rfl, ?_⟩
+  intro i
+  rw [(epoch_visits_once b hb t order horder hnd.1).2.2 i]
+  have hmem : i < n ↔ i ∈ t ∨ i ∈ v := by
+    rw [← List.mem_range, ← hpart.mem_iff, List.mem_append]
+  by_cases hi : i ∈ t
+  · rw [if_pos hi, if_pos ⟨hmem.mpr (Or.inl hi), fun h => hnd.2.2 i hi i h rfl⟩]
+  · have : ¬ (i < n ∧ i ∉ v) := by
+      rintro ⟨h1, h2⟩
+      rcases hmem.mp h1 with h | h
+      · exact hi h
+      · exact h2 h
+    rw [if_neg hi, if_neg this]
+
+example : ([2, 0] ++ [1, 3]).Perm (List.range 4) := by decide
+
+/-! ### 6. `reconstruct`: loss bookkeeping and reset -/
+
+section Reconstruct
+variable {P R : Type} [Num R]
+variable (draw : Gen → List Nat → List Nat)
+variable (stepFn : P → List Nat → P × R) (valFn : P → List Nat → R)
+
+/-- **The recorded epoch loss is the mean over the yielded batches** — for every batch size
+`b ≥ 1` (dividing or not), every split, every generator behaviour, every numerical step
+function: `reconstruct` appends exactly `num_iters` entries to the loss history (after emptying
+it if `reset`), and each entry is the sum of the losses of the batches yielded in that
+iteration — one loss per yielded batch — divided by their number. -/
+theorem recorded_epoch_loss_is_mean (cfg : RunCfg) (s : Recon P R) (hb : 0 < cfg.b)
+    (hdraw : ∀ g l, (draw g l).length = l.length) :
+    ∃ (Y : List (List R)) (Z : List R),
+      (reconstruct draw stepFn valFn cfg s).1.iterLosses
+        = (if cfg.reset then [] else s.iterLosses) ++ Z ∧
+      Z.length = cfg.numIters ∧ (reconstruct draw stepFn valFn cfg s).2.length = cfg.numIters ∧
+      Y.length = cfg.numIters ∧
+      ∀ t ∈ List.zip (reconstruct draw stepFn valFn cfg s).2 (List.zip Y Z),
+        t.2.1.length = t.1.length ∧ t.2.2 = Num.sum t.2.1 / Num.ofNat t.2.1.length := by
+  unfold reconstruct
+  simp only
+  obtain ⟨X, Y, Z, h1, _, h3, hx, hy, hz, hrel⟩ := iterate_trace draw stepFn valFn cfg.b
+    (makeBatcher draw (if cfg.reset then resetRecon s else s).rng.gen cfg.n cfg.ratio cfg.mode).1 cfg.numIters
+    { gen := (makeBatcher draw (if cfg.reset then resetRecon s else s).rng.gen cfg.n cfg.ratio cfg.mode).2,
+      params := (if cfg.reset then resetRecon s else s).params,
+      iterLosses := (if cfg.reset then resetRecon s else s).iterLosses,
+      valLosses := (if cfg.reset then resetRecon s else s).valLosses, schedule := [], batchLosses := [] }
+  refine ⟨Y, Z, ?_, hz, ?_, hy, ?_⟩
+  · rw [h3]
+    by_cases hr : cfg.reset <;> simp [hr, resetRecon]
+  · rw [h1]; simpa using hx
+  · rw [h1]
+    simp only [List.nil_append]
+    intro t ht
+    obtain ⟨⟨g, hg⟩, hlen, hL⟩ := hrel t ht
+    refine ⟨hlen, ?_⟩
+    rw [hL]
+    unfold recordedEpochLoss numBatches
+    rw [hlen, hg]
+    unfold epoch
+    rw [chunks_length cfg.b hb, hdraw]
+
+/-- **Validation bookkeeping**: a validation loss is recorded in every iteration exactly when the
+validation set is non-empty (so `val_iter_losses` grows by `num_iters` or not at all), and the
+loss history grows by `num_iters`. -/
+theorem history_lengths (cfg : RunCfg) (s : Recon P R) (hb : 0 < cfg.b) :
+    let s1 := if cfg.reset then resetRecon s else s
+    let sp := (makeBatcher draw s1.rng.gen cfg.n cfg.ratio cfg.mode).1
+    (reconstruct draw stepFn valFn cfg s).1.iterLosses.length = s1.iterLosses.length + cfg.numIters ∧
+    (reconstruct draw stepFn valFn cfg s).1.valLosses.length
+      = s1.valLosses.length + (if sp.val ≠ [] then cfg.numIters else 0) := by
+  intro s1 sp
+  unfold reconstruct
+  simp only
+  obtain ⟨_, _, Z, _, _, h3, _, _, hz, _⟩ := iterate_trace draw stepFn valFn cfg.b sp cfg.numIters
+    { gen := (makeBatcher draw s1.rng.gen cfg.n cfg.ratio cfg.mode).2, params := s1.params,
+      iterLosses := s1.iterLosses, valLosses := s1.valLosses, schedule := [], batchLosses := [] }
+  constructor
+  · show (iterate draw stepFn valFn cfg.b sp cfg.numIters _).iterLosses.length = _
+    rw [h3, List.length_append, hz]
+  · show (iterate draw stepFn valFn cfg.b sp cfg.numIters _).valLosses.length = _
+    rw [iterate_valLosses_length draw stepFn valFn cfg.b hb]
+
+/-- **Seeded determinism of the model**: two objects built with the same seed and the same
+initial parameters — in whatever state they are now — produce, on `reconstruct(reset=True, …)`,
+the same state (loss history, validation history, parameters, generator) and the same batch
+schedule. -/
+theorem same_seed_same_run (cfg : RunCfg) (hreset : cfg.reset = true) (s s' : Recon P R) (k : Nat)
+    (h1 : s.rng.rngSeed = some k) (h2 : s'.rng.rngSeed = some k) (h3 : s.initParams = s'.initParams) :
+    reconstruct draw stepFn valFn cfg s = reconstruct draw stepFn valFn cfg s' := by
+  unfold reconstruct
+  simp only [hreset, if_true]
+  rw [resetRecon_eq s s' k h1 h2 h3]
+
+/-- **The same run after a reset**: after ANY history of `reconstruct` calls on a seeded object
+(resets, continuations without reset, other batch sizes, other iteration counts, other splits),
+`reconstruct(reset=True, …)` returns exactly what it returns on the fresh object: identical
+loss history and identical schedule.  (This is where the order "reset, then build the batcher on
+the object's generator" matters.) -/
+theorem reset_run_independent_of_history (hist : List RunCfg) (cfg : RunCfg) (hreset : cfg.reset = true)
+    (s0 : Recon P R) (k : Nat) (hseed : s0.rng.rngSeed = some k) :
+    reconstruct draw stepFn valFn cfg (runHistory draw stepFn valFn hist s0)
+      = reconstruct draw stepFn valFn cfg s0 := by
+  have hp := runHistory_preserves draw stepFn valFn hist s0
+  exact same_seed_same_run draw stepFn valFn cfg hreset _ _ k (hp.1.trans hseed) hseed hp.2
+
+end Reconstruct
+
+/-- the hypotheses are satisfiable: a seeded state, a history with a continuation, a reset run -/
+example : ∃ (s0 : Recon Nat Rat) (hist : List RunCfg) (cfg : RunCfg),
+    s0.rng.rngSeed = some 7 ∧ cfg.reset = true ∧ hist.length = 2 ∧ 0 < cfg.b :=
+  ⟨{ rng := { rngSeed := some 7, gen := { seed := 7, pos := 0 } }, params := 0, initParams := 0,
+     iterLosses := [], valLosses := [] },
+   [{ reset := true, numIters := 2, b := 3, n := 10, ratio := 0.0, mode := .grid },
+    { reset := false, numIters := 1, b := 3, n := 10, ratio := 0.0, mode := .grid }],
+   { reset := true, numIters := 2, b := 3, n := 10, ratio := 0.0, mode := .grid }, rfl, rfl, rfl, by decide⟩
 
 end QuantemModel.Props.C09
